@@ -21,6 +21,9 @@ def fam_SA(tier, L=None, D=None, **kw):
     caps = [0, 1, 2, 3] if tier == "quick" else [0, 1, 2, 3, 4]
     out = [scen("S-A/cap%d" % c, [THR], [c], L, D, iter_destroy=[THR], iter_destroy_max_n=n, **kw) for c in caps]
     # the other constructors of an empty world: World::new(), Default::default(), mem::take
+    # populations of up to 7 rows with a small alphabet (typed destroy through the world, no queries as transitions): what
+    # depends on the NUMBER of rows (unrolled / chunked loops in iterators, growth steps) needs more than a handful
+    out.append(scen("S-A/rows7", [THR], [0], 7, 8 if tier == "quick" else 10, iter_destroy=[], key_kinds=[0], vias=["World"], create_within=False, **kw))
     for ctor, nm in ((1, "new"), (2, "default"), (3, "take")):
         out.append(scen("S-A/%s" % nm, [THR], [0], L - 1, D - 2, iter_destroy=[THR], iter_destroy_max_n=2, ctor=ctor, **kw))
     return out
